@@ -756,6 +756,9 @@ func checkTracker(r *Report, p *Prog, rule string) {
 	// GetTrackedRequest
 	fn2 := p.MustFunc("samlsp", "CookieRequestTracker", "GetTrackedRequest")
 	a2 := NewAnalysis(p)
+	a2.Inline = func(f *ssa.Function) bool {
+		return f.Pkg == fn2.Pkg && f != fn2 && p.InLibrary(f) && (f.Object() == nil || !f.Object().Exported()) && errIndex(f) >= 0
+	}
 	B2 := a2.B
 	fc2 := a2.Ctx(fn2)
 	fc2.ensureConds()
